@@ -490,7 +490,142 @@ theorem deleteHost_tie {s : Sess} (hi : Inv s) (ip : IP) :
       exact hi.midNodup
     rw [macDelete_tie hn2]
     cases hl : unlinkList s m.hostList h.ip with
-    | nil => simp
-    | cons a l => simp
+    | nil => simp [tableDel]
+    | cons a l =>
+      have : ¬ ((l.length : Int) + 1 = 0) := by omega
+      simp [this]
+
+/-! ### 7. `Session.findOrCreateHostWithLock` -/
+
+theorem updMac_updMac (s : Sess) (e : Nat) (f g : MacRec → MacRec) :
+    updMac (updMac s e f) e g = updMac s e (fun x => if (f x).id = e then g (f x) else f x) := by
+  unfold updMac
+  simp only [List.map_map]
+  congr 1
+  apply List.map_congr_left
+  intro x _
+  by_cases hxe : x.id = e <;> simp [hxe]
+
+theorem hostById_tableSet (s : Sess) (ip : IP) (r : HostRec) (hfr : ∀ p ∈ s.hosts, p.2.id ≠ r.id) :
+    hostById (tableSet s ip r) r.id = some r := by
+  unfold hostById tableSet
+  simp only [List.find?_append]
+  have : List.find? (fun p : IP × HostRec => p.2.id == r.id) (s.hosts.filter (fun p => p.1 != ip)) = none := by
+    apply List.find?_eq_none.2
+    intro x hx
+    have := hfr x (List.mem_filter.1 hx).1
+    simpa using this
+  rw [this]
+  simp
+
+/-- the creation tail of the generated `findOrCreateHostWithLock` (it occurs twice there) -/
+def genLink (fm : MAC → String) (now : Int) (s : Sess) (macEntry : Nat) (addr_IP : IP) : Option (Sess × Nat × Bool) :=
+  let host := ({ id := s.nextId, ip := addr_IP, mac := (M s macEntry).mac, entry := macEntry, online := false, lastSeen := zeroTime, manuf := "", names := {}, dirty := false } : HostRec)
+  let s := alloc s
+  let host := { host with dirty := true }
+  let host := { host with manuf := (fm (M s macEntry).mac) }
+  let host := { host with lastSeen := now }
+  let s := tableSet s addr_IP host
+  let host := host.id
+  if (((H s host).manuf != "") && ((H s host).manuf != (M s macEntry).manuf)) then
+    let s := updMac s macEntry (fun x => { x with manuf := (H s host).manuf })
+    let s := updMac s macEntry (fun x => { x with lastSeen := now })
+    let s := updMac s macEntry (fun x => { x with hostList := ((M s macEntry).hostList ++ [host]) })
+    some (s, host, false)
+  else
+    let s := updMac s macEntry (fun x => { x with lastSeen := now })
+    let s := updMac s macEntry (fun x => { x with hostList := ((M s macEntry).hostList ++ [host]) })
+    some (s, host, false)
+
+theorem genLink_eq (fm : MAC → String) (now : Int) {s1 : Sess} (hi : Inv s1) {e : MacRec} (he : e ∈ s1.macs)
+    (ip : IP) : genLink fm now s1 e.id ip = some (linkHost s1 e ip now (fm e.mac), s1.nextId, false) := by
+  have hM1 : macById s1 e.id = some e := macById_of_mem hi.midNodup he
+  have hMa : M (alloc s1) e.id = e := M_of_macById hM1
+  have hM0 : M s1 e.id = e := M_of_macById hM1
+  unfold genLink
+  simp only [hM0, hMa]
+  have hH := hostById_tableSet (alloc s1) ip
+    { id := s1.nextId, ip := ip, mac := e.mac, entry := e.id, online := false, lastSeen := now,
+      manuf := fm e.mac, names := {}, dirty := true }
+    (by intro p hp; have := hi.freshH p hp; simp only [ne_eq]; omega)
+  have hM3 : macById (tableSet (alloc s1) ip
+    { id := s1.nextId, ip := ip, mac := e.mac, entry := e.id, online := false, lastSeen := now,
+      manuf := fm e.mac, names := {}, dirty := true }) e.id = some e := hM1
+  simp only [H_of_hostById hH, M_of_macById hM3]
+  have hx : ∀ x ∈ s1.macs, x.id = e.id → x = e := fun x hx hxe =>
+    inj_of_nodup_map (fun y : MacRec => y.id) hi.midNodup hx he hxe
+  split
+  · rename_i hc
+    have h4 := macById_updMac_self hM3 (fun x => { x with manuf := fm e.mac }) (fun _ => rfl)
+    have h5 := macById_updMac_self h4 (fun x => { x with lastSeen := now }) (fun _ => rfl)
+    rw [M_of_macById h5]
+    rw [updMac_updMac, updMac_updMac]
+    congr 2
+    unfold linkHost updMac tableSet alloc newHost
+    simp only
+    congr 1
+    apply List.map_congr_left
+    intro x hxm
+    unfold linkG
+    by_cases hxe : x.id = e.id
+    · have := hx x hxm hxe
+      subst this
+      have hc' : fm x.mac ≠ "" ∧ fm x.mac ≠ x.manuf := by simpa using hc
+      simp [hc']
+    · simp [hxe]
+  · rename_i hc
+    have h5 := macById_updMac_self hM3 (fun x => { x with lastSeen := now }) (fun _ => rfl)
+    rw [M_of_macById h5]
+    rw [updMac_updMac]
+    congr 2
+    unfold linkHost updMac tableSet alloc newHost
+    simp only
+    congr 1
+    apply List.map_congr_left
+    intro x hxm
+    unfold linkG
+    by_cases hxe : x.id = e.id
+    · have := hx x hxm hxe
+      subst this
+      have hc' : ¬ (fm x.mac ≠ "" ∧ fm x.mac ≠ x.manuf) := by simpa using hc
+      simp [hc']
+    · simp [hxe]
+
+theorem genCreate_eq (fm : MAC → String) (now : Int) {s0 : Sess} (hi : Inv s0) (mac : MAC) (ip : IP) :
+    genLink fm now (MACTable_findOrCreate s0 mac).1 (MACTable_findOrCreate s0 mac).2 ip =
+      some ((createHost s0 mac ip now (fm mac)).1, (createHost s0 mac ip now (fm mac)).2, false) := by
+  rw [macFindOrCreate_tie hi.midNodup, createHost_eq]
+  obtain ⟨h1, h2, h3, _⟩ := inv_macFindOrCreate hi mac
+  simp only
+  rw [genLink_eq fm now h1 h2 ip, h3]
+
+theorem findOrCreateHost_tie {s : Sess} (hi : Inv s) (fm : MAC → String) (now : Int) (mac : MAC) (ip : IP) :
+    Session_findOrCreateHostWithLock fm now s mac ip =
+      (let r := findOrCreateHost s mac ip now (fm mac)
+       if r.panic then none
+       else some (r.s, r.host,
+         match findHost s ip with
+         | some h => decide ((macById s h.entry).map (·.mac) = some mac)
+         | none => false)) := by
+  unfold Session_findOrCreateHostWithLock findOrCreateHost tableGet findHost
+  cases hfind : s.hosts.find? (fun p => p.1 == ip) with
+  | none =>
+    simp only [Option.map_none, Bool.false_eq_true, if_false]
+    exact genCreate_eq fm now hi mac ip
+  | some p =>
+    obtain ⟨k, h⟩ := p
+    have hp := (find?_mem_pred hfind).1
+    have hb : hostById s h.id = some h := hostById_of_mem hi.hidNodup hp
+    obtain ⟨m, hm, hme, _, _⟩ := hi.hostEntry (k, h) hp
+    simp only at hme
+    have hmb : macById s h.entry = some m := by rw [← hme]; exact macById_of_mem hi.midNodup hm
+    simp only [Option.map_some, H_of_hostById hb, M_of_macById hmb, hmb]
+    by_cases hc : m.mac = mac
+    · simp [hc]
+    · have hc2 : (m.mac == mac) = false := by simpa using hc
+      have hc3 : ¬ (some m.mac = some mac) := by simpa using hc
+      simp only [hc2, hc3, Bool.false_eq_true, if_false, printHostTable_ok hi, printTablePanics_false hi,
+        deleteHost_tie hi ip, decide_false]
+      exact genCreate_eq fm now (inv_deleteHost hi ip) mac ip
 
 end PV.Lemmas.TablesTieA
